@@ -162,4 +162,55 @@ theorem frame_step (st : State) (op : Op) :
   have f := Proofs.C05.step_FK H S k st op st.self
   exact ⟨f.self, f.gs, f.ga⟩
 
+/-! ### the custody equation over every history -/
+
+/-- signed movement of token `a` into (+) or out of (−) the service's own balance caused by a SUCCESSFUL operation,
+    read off the state BEFORE the operation: outbound transfers of ids registered for `a` with the lock/unlock manager lock
+    their amount; inbound transfers for such ids release theirs (unless the recipient is the service itself); a service
+    token minted to the service itself is the only other way the service's balance moves -/
+def custodyFlow (st : State) (a : Addr) : Op → Int
+  | .transfer _ _ tid _ _ amount _ _ _ => if st.registry tid = some (a, .lockUnlock) then amount else 0
+  | .execute _ _ _ payload =>
+    match Abi.decodeHub payload with
+    | .ok (.receiveFromHub _ (.transfer t)) =>
+      match st.registry t.tokenId, addrFromXdr t.dest with
+      | some (addr, .lockUnlock), some r => if addr = a ∧ r ≠ st.self then - t.amount else 0
+      | some (addr, .native), some r => if addr = a ∧ r = st.self then t.amount else 0
+      | _, _ => 0
+    | _ => 0
+  | _ => 0
+
+/-- total locked minus total released (successful operations only), accumulated along a history -/
+def netCustody (st : State) (a : Addr) : List Op → Int
+  | [] => 0
+  | op :: rest =>
+    (match (step H S k st op).2 with | .err _ => 0 | _ => custodyFlow st a op) + netCustody (step H S k st op).1 a rest
+
+theorem custody_step_eq (st : State) (op : Op) (a : Addr) (hgs : st.gasService ≠ st.self) (hclean : Clean st.self op) :
+    balOf (step H S k st op).1 a st.self =
+      balOf st a st.self + (match (step H S k st op).2 with | .err _ => 0 | _ => custodyFlow st a op) := by
+  cases op
+  case transfer au ca ti de da am dt gt ga =>
+    exact Proofs.C05.custody_transfer_eq H S k st a au ca ti de da am dt gt ga hgs hclean
+  case execute c i sa p =>
+    exact Proofs.C05.custody_execute_eq H S k st a c i sa p
+  all_goals exact Proofs.C05.custody_other_eq H S k st _ a hclean hgs
+
+/-- **custody = initial + locked − released, for every token, over every history** (no donations to the service, the service
+    does not call its own entry points) -/
+theorem custody_run (st : State) (ops : List Op) (a : Addr) (hgs : st.gasService ≠ st.self)
+    (hclean : ∀ op ∈ ops, Clean st.self op) :
+    balOf (run H S k st ops).1 a st.self = balOf st a st.self + netCustody H S k st a ops := by
+  induction ops generalizing st with
+  | nil => simp only [run, netCustody, Int.add_zero]
+  | cons op ops ih =>
+    have e : (run H S k st (op :: ops)).1 = (run H S k (step H S k st op).1 ops).1 := rfl
+    obtain ⟨hself, hgsv, -⟩ := frame_step H S k st op
+    have h1 := custody_step_eq H S k st op a hgs (hclean op (List.mem_cons_self ..))
+    have h2 := ih (step H S k st op).1 (by rw [hgsv, hself]; exact hgs)
+      (fun o ho => by rw [hself]; exact hclean o (List.mem_cons_of_mem _ ho))
+    rw [hself] at h2
+    rw [e, h2, h1]
+    simp only [netCustody, Int.add_assoc]
+
 end Cgp.Props.C05
